@@ -180,6 +180,50 @@ def ctl_mc_refresh(tier):
                               workers=min(vf.NCPU, 10), timeout=1500, heap="8g")]
 
 
+# ---------------------------------------------------------------------------------------------
+# system level: "no slot is ever ... attested for twice" across the scheduler's cancel (spec/Vouch.tla, docs/Vouch.md)
+# ---------------------------------------------------------------------------------------------
+SYS_SC = 900001
+
+
+def sys_driver(scenarios, tag):
+    return vf.run_driver(PID, "./services/controller/standard", "TestVerifVouch", scenarios, "vouch-" + tag, timeout=600)
+
+
+def sys_sig(s):
+    return {"part": "system", "history": "cancel_on_fired_timer"}
+
+
+def sys_nontrivial(s, rows):
+    # the schedule was realised: the job goroutine was held after its timer fired, and the refresh cancelled its name meanwhile
+    notes = {r.get("what"): r.get("ok") for r in rows if r["ev"] == "Note"}
+    return bool(notes.get("hold") and notes.get("release")) and any(r["ev"] == "Cancel" and r["ok"] and r["slot"] == 4 for r in rows)
+
+
+def sys_scenarios():
+    """Directed schedule on the REAL controller + REAL scheduler + REAL attester (driver of the composition, TestVerifVouch): the
+    goroutine of "Attestations for slot 4" is held where its select has just taken the timer branch (the scheduler's verif hook)
+    while a reorg head event makes the refresh cancel the epoch's jobs and schedule them again under the same names.  CancelJob
+    reported success, so the withdrawn job must not run: otherwise slot 4 is attested for twice (Trace_Vouch.tla: CancelledNeverRuns,
+    SlotOnce, PendingExact).  Epoch 2 = slots 4, 5: version 0 has v1 in slot 4 and v2 in slot 5, the reorg swaps them."""
+    duties = [{"e": e, "w": w, "v": v, "slot": 2 * e + (v - 1 + w) % 2} for e in range(8) for w in range(3) for v in (1, 2)]
+    steps = [{"ev": "Reset", "p": 2, "start": 3, "last": 8, "ft": False, "vals": [1, 2], "duties": duties},
+             {"ev": "Advance", "slow": []}, {"ev": "Head"}, {"ev": "Hold", "e": 4}, {"ev": "Phase"},
+             {"ev": "Reorg", "e": 2}, {"ev": "Head"}, {"ev": "Release"},
+             {"ev": "Advance", "slow": []}, {"ev": "Phase"}, {"ev": "Advance", "slow": []}, {"ev": "Phase"}]
+    return [{"sc": SYS_SC, "kind": "vouch", "race": True, "slotms": 240, "tail": 3, "steps": steps}]
+
+
+def sys_conformance(v, sc):
+    # replay directories of this block are numbered from 201 (vf.conformance numbers from 1 per call)
+    orig = vf.save_replay
+    vf.save_replay = lambda pid, n, *a: orig(pid, n + 200, *a)
+    try:
+        vf.conformance(v, sc, sys_driver, "Trace_Vouch", "Trace_Vouch.cfg", sys_sig, sys_nontrivial, dfs=True, tlc_timeout=600)
+    finally:
+        vf.save_replay = orig
+
+
 def run(tier):
     v = vf.Verdict(PID, tier)
     v.assumptions = [
@@ -213,11 +257,13 @@ def run(tier):
         return v.finish()
     vf.conformance(v, ctl_sc, ctl_driver, "Trace_Controller", "Trace_Controller.cfg",
                    ctl_sig, ctl_nontrivial, dfs=True, chunk=250 if tier == "quick" else 400)
+    sys_conformance(v, sys_scenarios())
     v.coverage["rule"] = ("chain time: TLC-enumerated parameter sweep (slot duration x slots per epoch x genesis position) replayed on "
                           "chaintime/standard, non-trivial = epoch-side conversions and a clock reading sampled; controller: behaviours "
                           "of Controller.tla from TLC simulation (seeded) over seed-derived duty oracles and configuration families, "
                           "replayed on the real controller, non-trivial = duties became jobs and then a reorg refresh, a restart or a "
-                          "job execution followed; distinct by step list")
+                          "job execution followed; distinct by step list; system level: one directed schedule (cancel of the current slot's job "
+                          "right after its timer fired) on the real controller + real scheduler + real attester, judged by Trace_Vouch.tla")
     return v.finish()
 
 
@@ -225,7 +271,9 @@ def replay(path):
     v = vf.Verdict(PID, "quick")
     with open(os.path.join(path, "scenario.json")) as fh:
         s = json.load(fh)
-    if s["steps"][0].get("gk") is not None:
+    if s.get("kind") == "vouch":
+        sys_conformance(v, [s])
+    elif s["steps"][0].get("gk") is not None:
         vf.conformance(v, [s], ct_driver, "Trace_ChainTime", "Trace_ChainTime.cfg", ct_sig, ct_nontrivial)
     else:
         vf.conformance(v, [s], ctl_driver, "Trace_Controller", "Trace_Controller.cfg", ctl_sig, ctl_nontrivial, dfs=True)
